@@ -131,6 +131,9 @@ Inductive cstmt :=
 | SSwitch (k : string) (e : cexpr) (cases : list (list Z * list cstmt)) (default : list cstmt)
     (* the structured form only: every case body ends in break or return (stacked labels share one body) *)
 | SBreak
+| SInline (x : string) (body : list cstmt)
+    (* a call to another translated routine, its body placed here with the parameters replaced by the arguments: a return inside ends the
+       block and stores the value in x *)
 | SZero (x : string)          (* memset(p, 0, sizeof *p) / memset(&x, 0, sizeof x): every lvalue whose text starts with x reads 0 *)
 | SClobber (x : string)       (* a callee was handed &x (or the local array x) through a pointer to non-const: x and its parts are unknown now *)
 | SOther (what : string).
@@ -203,6 +206,12 @@ Fixpoint exec (fuel : nat) (m : memory) (rho : env) (tr : list event) (l : list 
                       | o => o end
           | None => Stuck k end
       | SBreak => Broke rho tr
+      | SInline x body =>
+          match exec f m rho tr body with
+          | Returned (Some v) rho' tr' => exec f m (upd rho' x v) tr' r
+          | Returned None rho' tr' => exec f m rho' tr' r
+          | Fell rho' tr' => exec f m rho' tr' r
+          | o => o end
       | SZero x => exec f m (zeroed rho x) tr r
       | SClobber x => exec f m (clobber rho (length tr) x) tr r
       | SRet k None => Returned None rho tr
